@@ -225,7 +225,7 @@ func (c *Ctx) havocCall(st *State, fr *Frame, tgt callTarget, pos token.Pos) Val
 	if all {
 		c.havocAll(st)
 	} else {
-		for key := range ws {
+		for _, key := range sortedKeys(ws) {
 			c.havocKey(st, key)
 		}
 	}
@@ -363,7 +363,7 @@ func (c *Ctx) applyContract(st *State, fr *Frame, fc *FuncContract, tgt callTarg
 			if all {
 				c.havocAll(st)
 			} else {
-				for key := range ws {
+				for _, key := range sortedKeys(ws) {
 					c.havocKey(st, key)
 				}
 			}
